@@ -9,6 +9,7 @@
   `Open` leaves the reader where it was) this removes the hypothesis `ReadToEnd` of the whole-run theorem.
 -/
 import GM.Proof.QuoteSimDriver
+import GM.Proof.QuoteSimList
 
 namespace GM.Blocks
 open GM GM.Text GM.Spec GM.Proof.Reader
@@ -21,14 +22,14 @@ theorem bind_inv_o {α β} {m : M α} {f : α → M β} {s : St} {b : β} {s' : 
   | error e => rw [hm] at h; cases h
   | ok x => obtain ⟨a, s1⟩ := x; rw [hm] at h; exact ⟨a, s1, rfl, h⟩
 
-theorem takeWhile_lt_of_not_all {α} (q : α → Bool) : ∀ (l : List α), l.all q = false → (l.takeWhile q).length < l.length
+theorem qs_takeWhile_lt_of_not_all {α} (q : α → Bool) : ∀ (l : List α), l.all q = false → (l.takeWhile q).length < l.length
   | [], h => by simp at h
   | a :: l, h => by
     simp only [List.takeWhile]
     by_cases ha : q a = true
     · rw [ha]
       have : l.all q = false := by simpa [List.all_cons, ha] using h
-      have := takeWhile_lt_of_not_all q l this
+      have := qs_takeWhile_lt_of_not_all q l this
       simp only [List.length_cons]; omega
     · have : q a = false := by simpa using ha
       rw [this]; simp
@@ -42,7 +43,7 @@ theorem nbv_facts {src : Bytes} {ls p : Nat} (h : NBV src ls p) :
   · rw [if_pos hp] at h
     simp only [Option.getD_some] at h
     refine ⟨hp, h, ?_⟩
-    have := takeWhile_lt_of_not_all isSpace _ (by unfold isBlank at h; exact h)
+    have := qs_takeWhile_lt_of_not_all isSpace _ (by unfold isBlank at h; exact h)
     rw [length_sub src (lineEnd_le src ls)] at this
     exact this
   · rw [if_neg hp] at h
@@ -153,9 +154,111 @@ theorem codeOpen_opens {src k ls p} (q : Nat) {sA sB : St} {a : Option Nat × PS
   cases e
   simp
 
-/-- the unary facts `OT` hold for every source -/
-theorem ot_all (src : Bytes) : OT src where
+/-! ### the list parsers decline on sources in which no position starts a list item -/
+
+/-- no position of the source starts a list item: behind at most three spaces there is no bullet (`-`, `*`, `+`) and no
+    number of at most nine digits with `.` or `)` that is followed by a space, a tab, the end of the line or the end of the
+    source (`parser.matchesListItem` on the rest of the line, from EVERY position) -/
+def NoItem (src : Bytes) : Prop :=
+  ∀ p, p < src.length → (matchesListItem (sub src p (lineEnd src p)) true).2 = ListTyp.notList
+
+instance (src : Bytes) : Decidable (NoItem src) := by unfold NoItem; exact Nat.decidableBallLT _ _
+
+theorem noItem_view {src k ls p} (hno : NoItem src) (hi : InL src k ls p) :
+    (matchesListItem ((viewA src ls p).getD []) true).2 = ListTyp.notList := by
+  unfold viewA
+  by_cases hp : p < lineEnd src ls
+  · rw [if_pos hp]
+    have := hno p (hi.lt_iff.mpr hp)
+    rw [hi.lineEnd_eq] at this
+    exact this
+  · rw [if_neg hp]; rfl
+
+theorem nodes_noR (n0 : List Node) : NoR (fun s : St => s.nodes = n0) := ⟨fun _ _ hs => hs⟩
+
+/-- `listParser.Open` declines, leaving the node store alone -/
+theorem listOpen_declines {src k ls p} (hno : NoItem src) (q : Nat) {sA sB : St} {a : Option Nat × PState} {sA' : St}
+    (h : SR src k ls p sA sB) (e : listOpen q sA = .ok (a, sA')) : a.1 = none ∧ sA'.nodes = sA.nodes := by
+  unfold listOpen at e
+  obtain ⟨last, s0, e0, e⟩ := bind_inv_o e
+  rw [lastOpenedBlock_eq] at e0
+  cases e0
+  cases hl : sA.pc.opened.getLast? with
+  | none =>
+    rw [hl] at e
+    dsimp only at e
+    obtain ⟨ln, s1, e1, e⟩ := bind_inv_o e
+    cases e1
+    dsimp only at e
+    obtain ⟨pc, s2, e2, e⟩ := bind_inv_o e
+    cases e2
+    split at e
+    · obtain ⟨_, s3, e3, e⟩ := bind_inv_o e
+      cases e3; cases e
+      exact ⟨rfl, rfl⟩
+    · obtain ⟨x1, s3, e3, e⟩ := bind_inv_o e
+      have hn3 : s3.nodes = sA.nodes := peekLine_keeps (nodes_noR sA.nodes) sA _ s3 rfl e3
+      obtain ⟨y1, t1, _, hx1, _, _⟩ := peekLine_s2 h x1 s3 e3
+      subst hx1
+      simp only at e
+      have hty := noItem_view hno h.r.inl
+      generalize matchesListItem ((viewA src ls p).getD []) true = mt at e hty
+      obtain ⟨m, typ⟩ := mt
+      simp only at e hty
+      subst hty
+      simp only [beq_self_eq_true, if_true] at e
+      cases e
+      exact ⟨rfl, hn3⟩
+  | some lb =>
+    rw [hl] at e
+    dsimp only at e
+    obtain ⟨ln, s1, e1, e⟩ := bind_inv_o e
+    cases e1
+    obtain ⟨ln2, s1', e1', e⟩ := bind_inv_o e
+    cases e1'
+    dsimp only at e
+    obtain ⟨pc, s2, e2, e⟩ := bind_inv_o e
+    cases e2
+    split at e
+    · obtain ⟨_, s3, e3, e⟩ := bind_inv_o e
+      cases e3; cases e
+      exact ⟨rfl, rfl⟩
+    · obtain ⟨x1, s3, e3, e⟩ := bind_inv_o e
+      have hn3 : s3.nodes = sA.nodes := peekLine_keeps (nodes_noR sA.nodes) sA _ s3 rfl e3
+      obtain ⟨y1, t1, _, hx1, _, _⟩ := peekLine_s2 h x1 s3 e3
+      subst hx1
+      simp only at e
+      have hty := noItem_view hno h.r.inl
+      generalize matchesListItem ((viewA src ls p).getD []) true = mt at e hty
+      obtain ⟨m, typ⟩ := mt
+      simp only at e hty
+      subst hty
+      simp only [beq_self_eq_true, if_true] at e
+      cases e
+      exact ⟨rfl, hn3⟩
+
+/-- `listItemParser.Open` declines when its parent is no List -/
+theorem listItemOpen_declines (q : Nat) {sA : St} {a : Option Nat × PState} {sA' : St} (hu : UStore sA.nodes)
+    (e : listItemOpen q sA = .ok (a, sA')) : a.1 = none ∧ sA'.nodes = sA.nodes := by
+  unfold listItemOpen at e
+  obtain ⟨pn, s0, e0, e⟩ := bind_inv_o e
+  cases e0
+  have hk : ((sA.nodes.getD q default).kind != Kind.list) = true := by
+    have := (hu.getD q).kind.1
+    simpa using this
+  rw [if_pos hk] at e
+  cases e
+  exact ⟨rfl, rfl⟩
+
+/-- the unary facts `OT` hold for every source in which no position starts a list item -/
+theorem ot_all (src : Bytes) (hno : NoItem src) : OT src where
   para := fun _ _ _ q _ _ _ _ h hnb e => paragraphOpen_opens q h hnb e
   code := fun _ _ _ q _ _ _ _ lo h hnb hw e => codeOpen_opens q lo h hnb hw e
+  lsim := by
+    intro bp hbp
+    cases bp <;> first | exact listOpen_sim src | exact listItemOpen_sim src | cases hbp
+  ldecl := by
+    intro bp hbp k ls p q sA sB a sA' h hu e
+    cases bp <;> first | exact listOpen_declines hno q h e | exact listItemOpen_declines q hu e | cases hbp
 
 end GM.Blocks
